@@ -320,6 +320,20 @@ func genC10(r *Run) {
 			}
 		}
 	}
+	// answers that arrive before the transmitting call has returned from WriteTo
+	for _, v6 := range []bool{false, true} {
+		for k := 0; k < r.N(5, 100); k++ {
+			outs := instantServer(v6, 1+k%4)
+			evals++
+			for i, o := range outs {
+				if o.status != 1 || o.payload != byte(20+i) {
+					r.Fail("c10-answer-before-write-returns", fmt.Sprintf("v6=%v: %d calls; the server's answer to each transmission is read by the receive loop before WriteTo returns", v6, len(outs)),
+						fmt.Sprintf("call %d ended with status %d payload %d instead of its answer %d: a call waits for its answer from the moment it transmits", i, o.status, o.payload, 20+i))
+					break
+				}
+			}
+		}
+	}
 	// overflow beyond what can be in flight
 	for k := 0; k < r.N(12, 200); k++ {
 		for _, v6 := range []bool{false, true} {
@@ -658,6 +672,87 @@ func reuseAfterFullBufferMode(v6, concurrent bool) (a, b callOutcome) {
 			closer() // B never got its answer: end it
 		}
 		<-done
+		closer()
+		synctest.Wait()
+	})
+	return
+}
+
+// instantServer: the answer to a transmission is on the wire, read and routed by the receive loop, before WriteTo
+// has even returned to the sender (a server on the same host, a loopback device).  The call is waiting from the
+// moment it transmits: its answer must reach it.
+func instantServer(v6 bool, n int) (outs []callOutcome) {
+	bubbleNote = fmt.Sprintf("v6=%v: %d calls whose answers arrive before WriteTo returns", v6, n)
+	outs = make([]callOutcome, n)
+	runBubble(func(t *testing.T) {
+		conn := newLabConn()
+		conn.onWrite = func(b []byte) {
+			var reply []byte
+			if v6 {
+				req, err := dhcpv6.MessageFromBytes(b)
+				if err != nil {
+					return
+				}
+				m := &dhcpv6.Message{MessageType: dhcpv6.MessageTypeReply, TransactionID: req.TransactionID}
+				m.AddOption(&dhcpv6.OptionGeneric{OptionCode: 4000, OptionData: []byte{req.TransactionID[2]}})
+				reply = m.ToBytes()
+			} else {
+				req, err := dhcpv4.FromBytes(b)
+				if err != nil {
+					return
+				}
+				m, _ := dhcpv4.New(dhcpv4.WithTransactionID(req.TransactionID), dhcpv4.WithHwAddr(labHW),
+					dhcpv4.WithMessageType(dhcpv4.MessageTypeOffer), dhcpv4.WithGeneric(dhcpv4.GenericOptionCode(224), []byte{req.TransactionID[3]}))
+				m.OpCode = dhcpv4.OpcodeBootReply
+				reply = m.ToBytes()
+			}
+			for len(conn.reads) > 0 {
+				<-conn.reads
+			}
+			select {
+			case conn.in <- reply:
+			case <-conn.closed:
+				return
+			}
+			select { // the loop is back for the next datagram: the answer has been routed (or dropped)
+			case <-conn.reads:
+			case <-conn.closed:
+			}
+		}
+		var wg sync.WaitGroup
+		var closer func()
+		if v6 {
+			c, err := nclient6.NewWithConn(conn, labHW, nclient6.WithTimeout(time.Second), nclient6.WithRetry(1))
+			if err != nil {
+				t.Fatal(err)
+			}
+			closer = func() { c.Close() }
+			for i := 0; i < n; i++ {
+				wg.Add(1)
+				go func(i int) {
+					defer wg.Done()
+					req := &dhcpv6.Message{MessageType: dhcpv6.MessageTypeSolicit, TransactionID: dhcpv6.TransactionID{0, 1, byte(20 + i)}}
+					resp, err := c.SendAndRead(context.Background(), nclient6.AllDHCPRelayAgentsAndServers, req, nil)
+					outs[i] = classify6(resp, err)
+				}(i)
+			}
+		} else {
+			c, err := nclient4.NewWithConn(conn, labHW, nclient4.WithTimeout(time.Second), nclient4.WithRetry(1))
+			if err != nil {
+				t.Fatal(err)
+			}
+			closer = func() { c.Close() }
+			for i := 0; i < n; i++ {
+				wg.Add(1)
+				go func(i int) {
+					defer wg.Done()
+					req, _ := dhcpv4.NewDiscovery(labHW, dhcpv4.WithTransactionID(dhcpv4.TransactionID{0, 0, 1, byte(20 + i)}))
+					resp, err := c.SendAndRead(context.Background(), &net.UDPAddr{IP: net.IPv4bcast, Port: 67}, req, nil)
+					outs[i] = classify4(resp, err)
+				}(i)
+			}
+		}
+		wg.Wait()
 		closer()
 		synctest.Wait()
 	})
